@@ -23,7 +23,7 @@ def bok(oid, evals, function):
     return [{'oid': oid, 'status': 'bounded-ok', 'bounded': True, 'evaluations': evals, 'function': function}]
 
 
-def random_dag(rnd, n, width=4, order='random', regs=0):
+def random_dag(rnd, n, width=4, order='random', regs=0, late=False):
     """a random acyclic netlist of n two-input gates (plus optional registers) instantiated in a random order;
     returns (sys, inputs, list of (leaf kind, in wires, out wire), outputs)"""
     import py4hw
@@ -45,7 +45,13 @@ def random_dag(rnd, n, width=4, order='random', regs=0):
     idx = list(range(n))
     if order == 'random': rnd.shuffle(idx)
     elif order == 'reversed': idx.reverse()
-    for k in idx:
+    top = s
+    conts = [q(py4hw.Logic, top, 'box%d' % j) for j in range(2)] if late else []     # purely structural containers
+    cut = rnd.randrange(0, n + 1) if late else None
+    for pos_, k in enumerate(idx):
+        if late and pos_ == cut:
+            q(top.getSimulator)          # the simulator exists before the remaining blocks are added
+        s = rnd.choice([top] + conts) if late else top
         kind, a, b, o = plan[k]
         if kind == 'And2': q(py4hw.And2, s, 'g%d' % k, a, b, o)
         elif kind == 'Or2': q(py4hw.Or2, s, 'g%d' % k, a, b, o)
@@ -57,12 +63,12 @@ def random_dag(rnd, n, width=4, order='random', regs=0):
             # (a leaf with several output ports: Mux2 pair would be two leaves; use BitsLSBF on a 2-bit concat when width==1)
             import py4hw.logic.bitwise as B
             if width == 1:
-                cat = s.wire('cat%d' % k, 2); q(B.ConcatenateMSBF, s, 'cat%d' % k, [b, a], cat)
+                cat = top.wire('cat%d' % k, 2); q(B.ConcatenateMSBF, s, 'cat%d' % k, [b, a], cat)
                 q(B.BitsLSBF, s, 'g%d' % k, cat, [o[0], o[1]])
             else:
                 q(py4hw.Buf, s, 'g%da' % k, a, o[0]); q(py4hw.Buf, s, 'g%db' % k, b, o[1])
         else: q(py4hw.Buf, s, 'g%d' % k, a, o)
-    return s, ins, plan
+    return top, ins, plan
 
 
 def eval_plan(plan, invals, width):
